@@ -101,6 +101,10 @@ func shape(s string) string {
 	if i := strings.Index(s, ", ID:"); i > 0 {
 		s = s[:i]
 	}
+	// service's validation walks a Go map of contexts and names the first offender: whether
+	// that is a context in the wrong state or one with a batch in the wrong state varies from
+	// process to process; both are the same class (only paused, idle contexts are importable)
+	s = strings.Replace(s, "request context batch state", "request context state", 1)
 	s = strings.TrimPrefix(s, "panic in InitChain: ")
 	s = strings.TrimPrefix(s, "panic in InitGenesis: ")
 	s = reAddr.ReplaceAllString(s, "ADDR")
@@ -187,7 +191,7 @@ func (m *Exporter) roundTrip(w *engine.World, prep bool, when string) {
 			mod, site = p.Module(), engine.PanicSite(p.Stack)
 		}
 		w.Violate("C12", fmt.Sprintf("import-rejected/%s/%s/%s", mod, site, shape(err.Error())),
-			"the genesis exported (%s) from the state of height %d is rejected by InitChain of a fresh application: %v", variant, h, err)
+			"the genesis exported (%s) from the state of height %d is rejected by InitChain of a fresh application: %s (error class; identifiers and numbers elided, because which offending object the module names first can depend on Go map order)", variant, h, shape(err.Error()))
 		return
 	}
 	w.Hit("C12.imports_accepted")
